@@ -578,6 +578,17 @@ def run(tier, seed, replay):
                 rep.violation("key2jwk-big-file:%s:%s" % (kind, "over-8192" if size > 8192 else "up-to-8192"),
                               "key file of %d bytes (%s): %s" % (size, kind, detail), dict(kind=kind, size=size, detail=detail))
     # several keys in one key2jwk call -> one JWKS -> jwk2key: as many files as keys, each the identical key of exactly one source
+    _unusable = {}
+    def unusable(entry):
+        key_ = json.dumps(entry, sort_keys=True)
+        if key_ not in _unusable:
+            pth = os.path.join(rd, "probe-%d.json" % (abs(hash(key_)) % 10**9))
+            json.dump(entry, open(pth, "w"))
+            q_ = subprocess.run([helper, "--mode", "import", "--arg1", pth, "--arg2", pth], capture_output=True, env=env)
+            l_ = [json.loads(x) for x in q_.stdout.decode().splitlines() if x.startswith('["IMP"')]
+            _unusable[key_] = bool(l_) and l_[0][2] != 0
+        return _unusable[key_]
+
     def multi(round_):
         r = random.Random(seed * 7919 + round_)
         srcs = []
@@ -609,7 +620,8 @@ def run(tier, seed, replay):
             # good ones, at the front or at the end: every good key is still written back, whatever the tool does about the bad ones
             BAD = [{"kty": "EC", "crv": "P-256", "x": "AQIDBAUGBwgJCgsMDQ4PEBESExQVFhcYGRobHB0eHyA", "y": "ICEiIyQlJicoKSorLC0uLzAxMjM0NTY3ODk6Ozw9Pj8", "kid": "broken-ec"},
                    {"kty": "oct", "kid": "broken-oct"}, {"kty": "RSA", "n": "AAAA", "e": "AQAB", "kid": "broken-rsa"}]
-            for _ in range(r.choice([1, 1, 2])):
+            BAD = [b_ for b_ in BAD if _unusable.get(json.dumps(b_, sort_keys=True))]      # the library decides what does not import (probed before the pool starts)
+            for _ in range(r.choice([1, 1, 2]) if BAD else 0):
                 d["keys"].insert(r.choice([0, len(d["keys"]), r.randrange(len(d["keys"]) + 1)]), r.choice(BAD))
                 nbad += 1
             json.dump(d, open(jpath, "w"))
@@ -644,6 +656,11 @@ def run(tier, seed, replay):
             probs.append(("multi:source-key-not-written-back", ",".join(os.path.basename(u) for u in unmatched)[:200]))
         return probs, len(srcs)
 
+    for cand_ in ({"kty": "EC", "crv": "P-256", "x": "AQIDBAUGBwgJCgsMDQ4PEBESExQVFhcYGRobHB0eHyA", "y": "ICEiIyQlJicoKSorLC0uLzAxMjM0NTY3ODk6Ozw9Pj8", "kid": "broken-ec"},
+                  {"kty": "oct", "kid": "broken-oct"}, {"kty": "RSA", "n": "AAAA", "e": "AQAB", "kid": "broken-rsa"}):
+        unusable(cand_)
+    rep.count("unusable_entry_kinds", sum(1 for v_ in _unusable.values() if v_))
+    vf.need(rep, any(_unusable.values()), "no entry that fails to import available for the multi-key rounds")
     with ThreadPoolExecutor(vf.NCPU) as ex:
         for probs, nk in ex.map(multi, range(40 if thorough else 12)):
             rep.evaluations += nk
